@@ -983,6 +983,53 @@ def gen_respell_generic(rng):
     return origin, head, bodies, how, cur
 
 
+WIRE_MODELLED = {1, 2, 5, 6, 12, 15, 33, 39}       # layouts of names, integers, IPv4: the model decodes these
+_NOT_WIRE_MODELLED = {b"TXT", b"KEY", b"AAAA", b"RRSIG", b"NSEC", b"TYPE16", b"TYPE25", b"TYPE28", b"TYPE46", b"TYPE47"}
+
+
+def gen_generic_read(rng):
+    """a zone file with one record of a wire-modelled known type in RFC 3597 syntax, well formed or damaged
+    (truncated, one octet too many, compression pointer, bad label type, name longer than 255 octets, wrong
+    length field): (origin, text)"""
+    while True:
+        origin, head, bodies, how, cur = gen_respell_generic(rng)
+        code = int(bodies[3].split(b"TYPE")[1].split(b" ")[0])
+        if code in WIRE_MODELLED:
+            break
+    pre = b"" if how == "zone" else b"$ORIGIN " + name_text(cur) + b"\n"
+    r = rng.random()
+    if r < 0.1:
+        a = bytes(rng.randrange(256) for _ in range(rng.choice([3, 4, 4, 4, 5])))
+        return origin, head + pre + b"addr 300 IN %s \\# %d %s\n" % (rng.choice([b"A", b"TYPE1"]), len(a), a.hex().encode())
+    body = bodies[rng.choice([2, 3])]
+    if r < 0.45:
+        return origin, head + pre + body
+    front, _, tail = body.rpartition(b"\\# ")
+    wire = bytes.fromhex(tail.split(b" ", 1)[1].decode().replace(" ", ""))
+    k = rng.randrange(8)
+    n = None
+    if k == 0:
+        wire = wire[:-1]
+    elif k == 1:
+        wire = wire + bytes([rng.randrange(256)])
+    elif k == 2:
+        i = rng.randrange(len(wire))
+        wire = wire[:i] + b"\xc0" + bytes([rng.randrange(len(wire))]) + wire[i + 1:]
+    elif k == 3:
+        i = rng.randrange(len(wire))
+        wire = wire[:i] + bytes([rng.choice([64, 128, 191, 192, 255])]) + wire[i + 1:]
+    elif k == 4:
+        wire = (b"\x3f" + b"x" * 63) * 4 + wire              # the first name becomes too long
+    elif k == 5:
+        n = len(wire) + rng.choice([-1, 1])
+    elif k == 6:
+        i = rng.randrange(len(wire))
+        wire = wire[:i] + bytes([rng.randrange(256)]) + wire[i + 1:]
+    else:
+        wire = b""
+    return origin, head + pre + front + b"\\# %d %s\n" % (len(wire) if n is None else n, wire.hex().encode())
+
+
 def mutate_text(rng, text):
     b = bytearray(text)
     if not b:
@@ -1345,6 +1392,12 @@ def cases(ctx):
         if len(files) < 2:
             continue
         yield "respell-include-state", [28, origin, int(rng.random() < 0.5), files, explicit, inlined]
+    # RFC 3597 syntax of wire-modelled known types, well formed and damaged: model correspondence
+    for i in range(ctx.n(120, 1500)):
+        origin, text = gen_generic_read(rng)
+        yield "read", [1, origin, int(rng.random() < 0.7), 1, text]
+        if b"$ORIGIN" not in text and rng.random() < 0.5:
+            yield "rrsets", [6, origin, int(rng.random() < 0.7), text]
     # RFC 3597 spelling of known types with embedded names, under the zone origin / a $ORIGIN below it / an
     # $INCLUDE origin below it, relativized and absolute zones
     for i in range(ctx.n(160, 2500)):
@@ -1403,10 +1456,12 @@ def unmodelled_token(text):
     for t in _SPLIT.split(text):
         if not t:
             continue
-        was_generate, prev = prev.upper() == b"$GENERATE", t
+        was_generate, pprev, prev = prev.upper() == b"$GENERATE", prev, t
         if t.startswith(b"$"):
             continue
         u = t.upper()
+        if t == b"\\#" and pprev.upper() in _NOT_WIRE_MODELLED:
+            return True     # RFC 3597 syntax of a known type whose wire layout the model does not decode
         if was_generate and re.match(rb"^[0-9]+-[0-9]+(/[0-9]+)?$", t):
             continue        # a plain $GENERATE range (the model's grange reads these)
         if _WEIRD_INT.match(t) and any(48 <= c <= 57 for c in t):
